@@ -5,7 +5,7 @@ from .common import TRUSTED, ASSUMPTIONS, default_nontrivial, LEVEL_NOTE, TECHNI
 LEVEL = "proof"
 THEOREMS = []
 RULE = ("inverse / abduce / abduce_with on conditional tables (vacuous, dogmatic, partially informative, zero-likelihood columns, "
-        "irrelevant outcomes) x strictly positive base rates; |X|,|Y| in 2..3 (also 4x2); dyadic grids; families A/M/D/N, "
+        "irrelevant outcomes) x strictly positive base rates (incl. base rates on Y inside the zero-tolerance band (0,eps]); |X|,|Y| in 2..3 (also 4x2); dyadic grids; families A/M/D/N, "
         "&Simplex / OpinionRef / &Opinion; f32+f64. non-trivial = value returned")
 EXHAUSTIVE = {}
 nontrivial = default_nontrivial
@@ -50,6 +50,15 @@ def cases(rng, tier):
             conds = table(rng, n, m, den)
             ax = G.rand_dist(rng, n, den, positive=True)
             ay = G.rand_dist(rng, m, den, positive=True)
+            if rng.random() < 0.12:
+                # base rate on Y strictly positive but inside the zero-tolerance band (0, eps]
+                e = G.EPS[fmt]
+                tiny = rng.choice([e / 2, e / 4, e, e * e, 2.0 ** -60 if fmt == "f64" else 2.0 ** -40])
+                y0 = rng.randrange(m)
+                ay = [float(v) for v in G.rand_dist(rng, m - 1, den, positive=True)] if m > 1 else []
+                big = max(range(len(ay)), key=lambda i: ay[i])
+                ay[big] = G.round_fmt(fmt, ay[big] - tiny)
+                ay.insert(y0, tiny)
             fam = rng.choice(G.FAMS_1D)
             r = rng.random()
             if r < 0.45:
